@@ -462,5 +462,8 @@ func runC08(c *Ctx) error {
 			}
 		}
 	}
+	if err := c.c08Resolve(); err != nil {
+		return err
+	}
 	return c.c08Programs()
 }
